@@ -577,12 +577,17 @@ fn write_child_result(ctx: &Ctx, out: &Path) {
         "requirements": ctx.requirements.iter().map(|(k, m)| json!([k, m])).collect::<Vec<_>>(),
         "maxima": ctx.maxima,
     });
-    std::fs::write(out, serde_json::to_vec(&v).unwrap()).unwrap();
     let mut hb = Vec::with_capacity(ctx.distinct.len() * 8);
     for h in &ctx.distinct {
         hb.extend(h.to_le_bytes());
     }
-    std::fs::write(out.with_extension("hashes"), hb).unwrap();
+    // not being able to write the result (scratch directory removed, disk full) is a failure of the harness, never a
+    // statement about the code under test
+    let r = std::fs::write(out.with_extension("hashes"), hb).and_then(|_| std::fs::write(out, serde_json::to_vec(&v).unwrap()));
+    if let Err(e) = r {
+        eprintln!("HARNESS-ERROR: cannot write the shard result {}: {}", out.display(), e);
+        std::process::exit(2);
+    }
 }
 
 // ------------------------------------------------------------------------------------------
@@ -594,8 +599,13 @@ pub fn bin_for(profile: &str) -> PathBuf {
         Err(_) => Path::new(&verif_root()).join("target").join(profile).join("agv"),
     }
 }
+/// Scratch directory of one driver run. The driver's pid is part of the name (children inherit it through AGV_RUN_TAG),
+/// so that two runs of the same check at the same time do not delete each other's files.
+pub fn run_tag() -> String {
+    std::env::var("AGV_RUN_TAG").unwrap_or_else(|_| std::process::id().to_string())
+}
 pub fn tmp_dir(id: &str) -> PathBuf {
-    let d = Path::new(&verif_root()).join("target").join("tmp").join(id);
+    let d = Path::new(&verif_root()).join("target").join("tmp").join(format!("{}-{}", id, run_tag()));
     let _ = std::fs::create_dir_all(&d);
     d
 }
@@ -667,6 +677,7 @@ pub fn driver_main(prop: &Prop, opts: &DriverOpts) -> i32 {
                 cmd.arg("--only").arg(st).arg(k.to_string());
             }
             cmd.env("RUST_MIN_STACK", "67108864");
+            cmd.env("AGV_RUN_TAG", run_tag());
             cmd.stdout(std::process::Stdio::piped()).stderr(std::process::Stdio::piped());
             let child = cmd.spawn().expect("spawn child shard");
             kids.push((s, out, child));
@@ -763,6 +774,7 @@ pub fn driver_main(prop: &Prop, opts: &DriverOpts) -> i32 {
         println!("KNOWN-FINDING: property={} {} ({} occurrence(s) this run) {}", prop.id, key, n, text);
     }
     let _ = std::fs::remove_dir_all(&tmp);
+    let _ = std::fs::remove_dir_all(Path::new(&verif_root()).join("target/tmp").join(format!("{}-work-{}", prop.id, run_tag())));
     if merged.n_violations > 0 {
         for v in &merged.violations {
             println!("VIOLATION property={} replay={}", prop.id, v.replay);
